@@ -472,9 +472,15 @@ where
     let frames: Vec<F> = gen_frames::<F>(hist, len, &mut rng);
     let acts = gen_acts(&mut rng, true);
     let mut cx = Ctx { rep, sqrt, fmt, n, ch: F::CHANNELS, hist, seed };
-    let ok = run_detector::<F>(&mut cx, n, &frames, &acts);
-    if ok && len <= 5000 {
-        run_adaptor::<F>(&mut cx, n, &frames);
+    let r = vmon::catch(std::panic::AssertUnwindSafe(|| {
+        let ok = run_detector::<F>(&mut cx, n, &frames, &acts);
+        if ok && len <= 5000 {
+            run_adaptor::<F>(&mut cx, n, &frames);
+        }
+    }));
+    if let Err(m) = r {
+        let (sig, case) = (cx.sig("panic"), cx.case(0));
+        cx.rep.violation(&sig, format!("window {} history {} length {}: panicked: {}", n, hist, len, m), case);
     }
     cx.rep.hit("configs_run");
     cx.rep.nontrivial(vmon::hash_combine(vmon::hash_str(fmt), vmon::hash_combine(n as u64 * 16 + F::CHANNELS as u64, vmon::hash_combine(vmon::hash_str(hist), len as u64))));
